@@ -35,8 +35,8 @@ def main():
                 jobs.append({'id': 'trbe_%s_%d' % (f, n), 'kind': 'trbe', 'a': n, 'field': f, 'abstract': ['prover.ReducedModRCheck']})
                 jobs.append({'id': 'trbe_real_%s_%d' % (f, n), 'kind': 'trbe', 'a': n, 'field': f, 'nowrap': True})
                 tasks.append({'kind': 'trbe', 'field': f, 'n': n, 'id': jobs[-2]['id'], 'real': jobs[-1]['id']})
-                if not run.thorough and (1 << n) > 64 * mod[f]:
-                    continue   # quotient range > 64: minutes of LIA; thorough tier only
+                if (1 << n) > (64 if not run.thorough else 600) * mod[f]:
+                    continue   # quotient range beyond 64 (quick) / 600 (thorough) multiples of p: LIA does not finish; outside the claim
                 jobs.append({'id': 'fbbe_%s_%d' % (f, n), 'kind': 'fbbe', 'a': n, 'field': f, 'nowrap': True})
                 tasks.append({'kind': 'fbbe', 'field': f, 'n': n, 'id': jobs[-1]['id']})
         t = time.time()
